@@ -841,8 +841,10 @@ def run(chk, P):
              'running slot counter (shared implementation with C05 R05.8, decode side only).  With a single submap slot and channel '
              'number coincide, so only streams with two or more submaps show a flag filed under the channel number')
     from rules import c05
-    c05.r05_8(common.Proxy(chk, 'R01.12', only=lambda fn, cons: fn == 'mapping0_inverse'), P)
-    chk.floor('R01.12', 1)
+    c05.r05_8(common.Proxy(chk, 'R01.12', only=lambda fn, cons: fn != 'mapping0_forward'), P)
+    if not any(o.rule == 'R01.12' for o in chk.obs):
+        # the `chmuxlist[j]==i` guard form is what the shared rule anchors in; a decoder that bundles differently has no instance here
+        chk.ob('R01.12', 'mapping0_inverse', 'no-bundle-guard-of-that-form', True, 'lib/mapping0.c', 'no block guarded by chmuxlist[J]==I on the decode side in this tree')
     chk.rule('R01.13', 'a residue back end that skips the channels marked "do not decode" decodes exactly the remaining vectors: the count '
              'handed to the shared residue walker is the compaction counter (shared implementation with C05 R05.13, decode side)')
     c05.r05_13(common.Proxy(chk, 'R01.13', only=lambda fn, cons: fn.endswith('_inverse')), P)
